@@ -1,25 +1,26 @@
 #!/usr/bin/env python3
-"""Store a confirmed second-round seeded change from /tmp/w2-<Cxx>:
+"""Store a confirmed later-round seeded change from /tmp/w<N>-<Cxx> (N = 2 by default, env ROUND=3 ...):
    tools/store_wave2.py <Cxx> <caught-by,comma> "<needs>" "<status>" """
 import sys, os, json, shutil, re
 prop, caught, needs, status = sys.argv[1:5]
-wt = f"/tmp/w2-{prop}"
-dst = f"/verif/seeded/{prop}-r2"
+rnd = os.environ.get("ROUND", "2")
+wt = f"/tmp/w{rnd}-{prop}"
+dst = f"/verif/seeded/{prop}-r{rnd}"
 os.makedirs(dst, exist_ok=True)
 shutil.copy(f"{wt}/m1.diff", f"{dst}/patch.diff")
 shutil.copy(f"{wt}/tests/demo_m1.rs", f"{dst}/demo_m1.rs")
 open(f"{dst}/NOTES-from-author.md", "w").write(open(f"{wt}/NOTES.md").read())
-log = [l.rstrip() for l in open(f"/tmp/confirm-{prop}-r2.log") if l.strip()]
+log = [l.rstrip() for l in open(f"/tmp/confirm-{prop}-r{rnd}.log") if l.strip()]
 meta = {
-    "id": f"{prop}-r2",
+    "id": f"{prop}-r{rnd}",
     "breaks_property": prop,
-    "origin": "second round: written by an independent sub-agent that saw only the text of the property and a scratch worktree of /repo, and was told that an extensive randomized suite already exists and that the change must need a conjunction of specific conditions",
+    "origin": ("second" if rnd == "2" else "third") + " round: written by an independent sub-agent that saw only the text of the property and a scratch worktree of /repo, and was told that an extensive randomized suite already exists and that the change must need a conjunction of specific conditions" + (" (third round: also told which kinds of generators such a suite has - enumeration of single instructions and adjacent pairs, long programs, page-edge programs, priming accesses, API histories, stress runs, Unicode input, both builds)" if rnd == "3" else ""),
     "needs_to_manifest": needs,
     "confirmed_by_me": {
         "log": log,
         "commands": [
-            f"tools/confirm_seeded.sh /tmp/w2-{prop} m1 (clean demo; whole suite in both configurations with the change - the only failing tests are the demo's; 560 / 704 tests of the repository pass)" + ("; plus --no-default-features suite (559 pass) and demo for C20" if prop == "C20" else ""),
-            f"tools/try_patch.sh seeded/{prop}-r2/patch.diff {caught.replace(',', ' ')}",
+            f"tools/confirm_seeded.sh /tmp/w{rnd}-{prop} m1 (clean demo; whole suite in both configurations with the change - the only failing tests are the demo's; 560 / 704 tests of the repository pass)" + ("; plus --no-default-features suite (559 pass) and demo for C20" if prop == "C20" else ""),
+            f"tools/try_patch.sh seeded/{prop}-r{rnd}/patch.diff {caught.replace(',', ' ')}",
         ],
     },
     "caught_by_quick_checks": [c for c in caught.split(",") if c],
